@@ -464,6 +464,53 @@ def dispatch_grammar(rng, derive=True):
     return items
 
 
+def nullable_tail_grammar(rng, derive=True):
+    """A -> B N1 [N2] where the tail behind B is non-empty but nullable, and A is used in two to four contexts with
+    different followers: the lookaheads of B's items are FIRST(N1 N2 a) = FIRST(N1) ∪ FIRST(N2) ∪ {a} for EVERY
+    lookahead a of the item of A — one closure has to hand several lookaheads down through a nullable tail."""
+    ts = rng.sample(["Aa", "Bb", "Cc", "Dd", "Ee", "Ff", "Gg", "Hh", "Kk", "Mm"], rng.randint(5, 8))
+    attrs = ["#[derive(Debug)]"] if derive else []
+
+    def fs(syms):
+        if not syms:
+            return {"kind": "empty"}
+        return {"kind": "tuple", "fields": [{"used": rng.random() < 0.8, "sym": x} for x in syms]}
+
+    it = iter(ts)
+    b, n1, n2 = next(it), next(it), next(it)
+    followers = list(it)
+    two = rng.random() < 0.5
+    tail = [sym_n("N1")] + ([sym_n("N2")] if two else [])
+    decls = [{"kind": "struct", "attrs": list(attrs), "name": "A", "fieldset": fs([sym_n("B")] + tail)}]
+    bv = [[sym_t(b)]] + ([[sym_t(b), sym_t(b)]] if rng.random() < 0.5 else []) + ([[sym_n("B2"), sym_t(b)]] if rng.random() < 0.3 else [])
+    decls.append({"kind": "enum", "attrs": list(attrs), "name": "B", "variants": [{"name": f"V{j}", "fieldset": fs(v)} for j, v in enumerate(bv)]})
+    if any(sym_key(x) == ("n", "B2") for v in bv for x in v):
+        decls.append({"kind": "struct", "attrs": list(attrs), "name": "B2", "fieldset": fs([])})
+    decls.append({"kind": "enum", "attrs": list(attrs), "name": "N1", "variants": [{"name": "Nil", "fieldset": fs([])}, {"name": "Some1", "fieldset": fs([sym_t(n1)])}]})
+    if two:
+        decls.append({"kind": "enum", "attrs": list(attrs), "name": "N2", "variants": [{"name": "Nil", "fieldset": fs([])}, {"name": "Some2", "fieldset": fs([sym_t(n2)])}]})
+    ctx = [[sym_n("A")]]
+    for f in followers:
+        k = rng.random()
+        ctx.append([sym_n("A"), sym_t(f)] if k < 0.5 else [sym_t(f), sym_n("A"), sym_t(f)] if k < 0.8 else [sym_t(f), sym_n("A")])
+    rng.shuffle(ctx)
+    seen, variants = set(), []
+    for c in ctx[: rng.randint(2, 4)]:
+        key = tuple(sym_key(x) for x in c)
+        if key not in seen:
+            seen.add(key)
+            variants.append({"name": f"C{len(variants)}", "fieldset": fs(c)})
+    decls.insert(0, {"kind": "enum", "attrs": list(attrs), "name": "Top", "variants": variants})
+    if rng.random() < 0.5:
+        rng.shuffle(decls)
+    order = list(ts)
+    rng.shuffle(order)
+    used = {x["sym"]["t"] for d in decls for fsx in ([d["fieldset"]] if d["kind"] == "struct" else [v["fieldset"] for v in d["variants"]]) if fsx["kind"] != "empty" for x in fsx["fields"] if "t" in x["sym"]}
+    items = [{"kind": "start", "name": "Top"}] + decls
+    items.append({"kind": "terminal", "attrs": list(attrs), "name": "Tok", "variants": [{"name": t, "type": "usize"} for t in order if t in used]})
+    return items
+
+
 def wave_grammar(rng, derive=True):
     """A dependency chain A1 -> A2 -> .. -> Ak whose far end is `Ak { Nil | More(Aj $Y) }`: nullability
     has to travel the whole chain before Y can enter FIRST(Ak), and Y then has to travel the chain again.
